@@ -229,6 +229,12 @@ MUTANTS = [
     m("C15-flag-both", "C15", "C15.R5", S, "            if len(old_value) < len(value):\n                value = old_value\n            else:\n                flags |= FLAG_COMPRESSED", "            flags |= FLAG_COMPRESSED\n            if len(old_value) < len(value):\n                value = old_value"),
     m("C15-int-str", "C15", "C15.R4", S, 'value = b"%d" % value', 'value = "%d" % value'),
     m("C15-silent-and-order", "C15", "", S, "        if len(value) > self._min_compress_len > 0:", "        if self._min_compress_len > 0 and len(value) > self._min_compress_len:", kind="silent"),
+    m("C15-encode-errors-replace", "C15", "C15.R3", S, "        value = value.encode(\"utf8\")\n", "        value = value.encode(\"utf8\", \"replace\")\n"),
+    m("C15-decode-errors-ignore", "C15", "C15.R2", S, "        return value.decode(\"utf8\")\n", "        return value.decode(\"utf8\", errors=\"ignore\")\n"),
+    m("C15-default-deserialize-falsy-none", "C15", "C15.R8", S, "    def _default_deserialize(self, key, value, flags):\n        return value\n", "    def _default_deserialize(self, key, value, flags):\n        return value or None\n"),
+    m("C15-default-serialize-flags-one", "C15", "C15.R8", S, "    def _default_serialize(self, key, value):\n        return value, 0\n", "    def _default_serialize(self, key, value):\n        return value, 1\n"),
+    m("C15-silent-decompress-clears-bit", "C15", "", S, "            value = self._decompress(value)\n", "            value = self._decompress(value)\n            flags ^= FLAG_COMPRESSED\n", kind="silent"),
+    m("C15-silent-default-serde-ifexp", "C15", "", S, "        self.serialize = serializer_func or self._default_serialize\n", "        self.serialize = self._default_serialize if serializer_func is None else serializer_func\n", kind="silent"),
     # ---------------- C16
     m("C16-drop-flags", "C16", "C16.R2", B, "            return client.add(key, value, expire=expire, noreply=noreply, flags=flags)", "            return client.add(key, value, expire=expire, noreply=noreply)"),
     m("C16-drop-default-noreply", "C16", "C16.R3", H, '            "default_noreply": default_noreply,\n', ""),
